@@ -273,7 +273,7 @@ func execRelationalExprLessThan(context *exprContext, expr *grammar.Grammar) err
 	if leftNodeSetOk && rightNodeSetOk {
 		for _, leftNode := range leftNodeSet {
 			for _, rightNode := range rightNodeSet {
-				if GetCursorString(leftNode) < GetCursorString(rightNode) {
+				if getStringNumber(GetCursorString(leftNode)) < getStringNumber(GetCursorString(rightNode)) {
 					context.result = Bool(true)
 					return nil
 				}
@@ -316,7 +316,7 @@ func execRelationalExprLessThan(context *exprContext, expr *grammar.Grammar) err
 
 	if leftStringOk && rightNodeSetOk {
 		for _, rightNode := range rightNodeSet {
-			if leftString < String(GetCursorString(rightNode)) {
+			if leftString.Number() < getStringNumber(GetCursorString(rightNode)) {
 				context.result = Bool(true)
 				return nil
 			}
@@ -330,13 +330,24 @@ func execRelationalExprLessThan(context *exprContext, expr *grammar.Grammar) err
 
 	if leftNodeSetOk && rightStringOk {
 		for _, leftNode := range leftNodeSet {
-			if String(GetCursorString(leftNode)) < rightString {
+			if getStringNumber(GetCursorString(leftNode)) < rightString.Number() {
 				context.result = Bool(true)
 				return nil
 			}
 		}
 
 		context.result = Bool(false)
+		return nil
+	}
+
+	// A node-set compared with a boolean is converted with boolean().
+	if leftBool, leftBoolOk := left.(Bool); leftBoolOk && rightNodeSetOk {
+		context.result = Bool(leftBool.Number() < Bool(rightNodeSet.Bool()).Number())
+		return nil
+	}
+
+	if rightBool, rightBoolOk := right.(Bool); leftNodeSetOk && rightBoolOk {
+		context.result = Bool(Bool(leftNodeSet.Bool()).Number() < rightBool.Number())
 		return nil
 	}
 
@@ -357,7 +368,7 @@ func execRelationalExprLessThanOrEqual(context *exprContext, expr *grammar.Gramm
 	if leftNodeSetOk && rightNodeSetOk {
 		for _, leftNode := range leftNodeSet {
 			for _, rightNode := range rightNodeSet {
-				if GetCursorString(leftNode) <= GetCursorString(rightNode) {
+				if getStringNumber(GetCursorString(leftNode)) <= getStringNumber(GetCursorString(rightNode)) {
 					context.result = Bool(true)
 					return nil
 				}
@@ -400,7 +411,7 @@ func execRelationalExprLessThanOrEqual(context *exprContext, expr *grammar.Gramm
 
 	if leftStringOk && rightNodeSetOk {
 		for _, rightNode := range rightNodeSet {
-			if leftString <= String(GetCursorString(rightNode)) {
+			if leftString.Number() <= getStringNumber(GetCursorString(rightNode)) {
 				context.result = Bool(true)
 				return nil
 			}
@@ -414,13 +425,24 @@ func execRelationalExprLessThanOrEqual(context *exprContext, expr *grammar.Gramm
 
 	if leftNodeSetOk && rightStringOk {
 		for _, leftNode := range leftNodeSet {
-			if String(GetCursorString(leftNode)) <= rightString {
+			if getStringNumber(GetCursorString(leftNode)) <= rightString.Number() {
 				context.result = Bool(true)
 				return nil
 			}
 		}
 
 		context.result = Bool(false)
+		return nil
+	}
+
+	// A node-set compared with a boolean is converted with boolean().
+	if leftBool, leftBoolOk := left.(Bool); leftBoolOk && rightNodeSetOk {
+		context.result = Bool(leftBool.Number() <= Bool(rightNodeSet.Bool()).Number())
+		return nil
+	}
+
+	if rightBool, rightBoolOk := right.(Bool); leftNodeSetOk && rightBoolOk {
+		context.result = Bool(Bool(leftNodeSet.Bool()).Number() <= rightBool.Number())
 		return nil
 	}
 
@@ -441,7 +463,7 @@ func execRelationalExprGreaterThan(context *exprContext, expr *grammar.Grammar) 
 	if leftNodeSetOk && rightNodeSetOk {
 		for _, leftNode := range leftNodeSet {
 			for _, rightNode := range rightNodeSet {
-				if GetCursorString(leftNode) > GetCursorString(rightNode) {
+				if getStringNumber(GetCursorString(leftNode)) > getStringNumber(GetCursorString(rightNode)) {
 					context.result = Bool(true)
 					return nil
 				}
@@ -484,7 +506,7 @@ func execRelationalExprGreaterThan(context *exprContext, expr *grammar.Grammar) 
 
 	if leftStringOk && rightNodeSetOk {
 		for _, rightNode := range rightNodeSet {
-			if leftString > String(GetCursorString(rightNode)) {
+			if leftString.Number() > getStringNumber(GetCursorString(rightNode)) {
 				context.result = Bool(true)
 				return nil
 			}
@@ -498,13 +520,24 @@ func execRelationalExprGreaterThan(context *exprContext, expr *grammar.Grammar) 
 
 	if leftNodeSetOk && rightStringOk {
 		for _, leftNode := range leftNodeSet {
-			if String(GetCursorString(leftNode)) > rightString {
+			if getStringNumber(GetCursorString(leftNode)) > rightString.Number() {
 				context.result = Bool(true)
 				return nil
 			}
 		}
 
 		context.result = Bool(false)
+		return nil
+	}
+
+	// A node-set compared with a boolean is converted with boolean().
+	if leftBool, leftBoolOk := left.(Bool); leftBoolOk && rightNodeSetOk {
+		context.result = Bool(leftBool.Number() > Bool(rightNodeSet.Bool()).Number())
+		return nil
+	}
+
+	if rightBool, rightBoolOk := right.(Bool); leftNodeSetOk && rightBoolOk {
+		context.result = Bool(Bool(leftNodeSet.Bool()).Number() > rightBool.Number())
 		return nil
 	}
 
@@ -525,7 +558,7 @@ func execRelationalExprGreaterThanOrEqual(context *exprContext, expr *grammar.Gr
 	if leftNodeSetOk && rightNodeSetOk {
 		for _, leftNode := range leftNodeSet {
 			for _, rightNode := range rightNodeSet {
-				if GetCursorString(leftNode) >= GetCursorString(rightNode) {
+				if getStringNumber(GetCursorString(leftNode)) >= getStringNumber(GetCursorString(rightNode)) {
 					context.result = Bool(true)
 					return nil
 				}
@@ -568,7 +601,7 @@ func execRelationalExprGreaterThanOrEqual(context *exprContext, expr *grammar.Gr
 
 	if leftStringOk && rightNodeSetOk {
 		for _, rightNode := range rightNodeSet {
-			if leftString >= String(GetCursorString(rightNode)) {
+			if leftString.Number() >= getStringNumber(GetCursorString(rightNode)) {
 				context.result = Bool(true)
 				return nil
 			}
@@ -582,13 +615,24 @@ func execRelationalExprGreaterThanOrEqual(context *exprContext, expr *grammar.Gr
 
 	if leftNodeSetOk && rightStringOk {
 		for _, leftNode := range leftNodeSet {
-			if String(GetCursorString(leftNode)) >= rightString {
+			if getStringNumber(GetCursorString(leftNode)) >= rightString.Number() {
 				context.result = Bool(true)
 				return nil
 			}
 		}
 
 		context.result = Bool(false)
+		return nil
+	}
+
+	// A node-set compared with a boolean is converted with boolean().
+	if leftBool, leftBoolOk := left.(Bool); leftBoolOk && rightNodeSetOk {
+		context.result = Bool(leftBool.Number() >= Bool(rightNodeSet.Bool()).Number())
+		return nil
+	}
+
+	if rightBool, rightBoolOk := right.(Bool); leftNodeSetOk && rightBoolOk {
+		context.result = Bool(Bool(leftNodeSet.Bool()).Number() >= rightBool.Number())
 		return nil
 	}
 
